@@ -231,6 +231,6 @@ def check_any(ctx, case):
 
 
 FAMILIES = [
-    Family('estimates', check_any, strategy=lambda tier: estimate_case(), n=(2000, 100000)),
+    Family('estimates', check_any, strategy=lambda tier: estimate_case(), n=(3000, 100000)),
     Family('groups', check_any, enumerate=enum_groups),
 ]
